@@ -81,6 +81,7 @@ func isStrTok(t string) bool { return strings.HasPrefix(t, "s:") }
 func genC05(c *h.Ctx) {
 	genOop(c)
 	genOps2(c)
+	genKnd(c)
 	vs := c05Values(c.Rng)
 	bd := h.BoundaryDoubles()
 	for _, op := range c05Unary {
@@ -140,6 +141,8 @@ func implC05(line string) string {
 		return implEx(f)
 	case "instr":
 		return implInstr(f)
+	case "knd", "knda":
+		return implKnd(f)
 	case "toInt32":
 		return fmt.Sprint(otto.VerifToInt32(h.ParseVal(f[1])))
 	case "toUint32":
